@@ -131,6 +131,20 @@ VARIANTS = [
     V("c06-big-constant-add", [("src/dfa.rs", "    writeln!(output, \"{indentation}node [shape=circle];\")?;\n    for state in regular_states {\n", "    writeln!(output, \"{indentation}node [shape=circle];\")?;\n    for state in regular_states {\n        let _far = state + 4_000_000_000u32;\n")], {"C06": "PANIC:dfa::do_to_dot|assert:overflow:Add"}),
     V("c06-sub-through-ref", [("src/dfa.rs", "                        from + array_start,\n                        to + array_start,\n                        label", "                        from + array_start,\n                        to - array_start,\n                        label")], {"C06": "PANIC:dfa::do_to_dot|arith-call"}),
     V("c06-wrapping-source", [("src/dfa.rs", "    writeln!(output, \"{indentation}node [shape=circle];\")?;\n    for state in regular_states {\n", "    writeln!(output, \"{indentation}node [shape=circle];\")?;\n    for state in regular_states {\n        let _prev = state.wrapping_sub(1) + array_start;\n")], {"C06": "ARITH:premise:CALL"}),
+    # ---------------- every recorded repair coming undone must be reported again under its key (known_findings.json `fixed`)
+    V("revert-03d1ec3-builtin-first", [("@revert", "03d1ec3")], {"C11": "LOOKUP:check::specialize_nonterminals:plain-definition-overrides-builtin"}),
+    V("revert-ae37757-cycle-seeding", [("@revert", "15c7d97"), ("@revert", "ae37757")], {"C08": "CYCSEED:check::get_nonterminals_resolution_order", "C06": "CYCSEED:check::get_nonterminals_resolution_order"}),
+    V("revert-15c7d97-cycle-unreachable", [("@revert", "15c7d97")], {"C06": "PANIC:check::get_nonterminals_resolution_order|panic"}),
+    V("revert-c57cb3c-subword-diag", [("@revert", "c57cb3c")], {"C06": "PANIC:dfa::diagnostic_display_input|panic"}),
+    V("revert-5309124-span-clamp", [("@revert", "5309124")], {"C06": "main::ErrMsg::error"}),
+    V("revert-97cc72a-terminal-rewrap", [("@revert", "97cc72a")], {"C13": "SPANSRC:parse::terminal"}),
+    V("revert-e02fe70-minimize-identity", [("@revert", "e02fe70")], {"C03": "NOIDRET:dfa::do_minimize:no-identity-return"}),
+    V("revert-e3395e0-compadd-iso", [("@revert", "e3395e0")], {"C04": "ISOCOV:tables::LookupTables::isomorphic_to:CompletionTransitions.compadd"}),
+    # ---------------- every registered check: edits that change no behaviour
+    V("all-line-shift-benign", [("src/dfa.rs", "use ", "// a comment that moves every line down\n\nuse "), ("src/check.rs", "use ", "// a comment that moves every line down\n\n\nuse "), ("src/main.rs", "use ", "// moved\nuse "),
+                                ("src/parse.rs", "use ", "// moved\n// twice\nuse "), ("src/regex.rs", "use ", "// moved\nuse "), ("src/tables.rs", "use ", "// moved\nuse "), ("src/bash.rs", "use ", "// moved\nuse ")],
+      {p: None for p in ("C02", "C03", "C04", "C06", "C08", "C09", "C10", "C11", "C13", "C14", "C15")}),
+    V("c03-rename-local-benign", [("src/dfa.rs", "let nonaccepting_states =", "let rejecting_states ="), ("src/dfa.rs", "dfa.accepting_states.clone(), nonaccepting_states]", "dfa.accepting_states.clone(), rejecting_states]")], {"C03": None, "C06": None}),
     # ---------------- C10
     V("c10-std-hashset-in-dfa", [("src/dfa.rs", "use hashbrown::{HashMap, HashSet};", "use hashbrown::HashMap;\nuse std::collections::HashSet;")], {"C10": "HASHORD:dfa::dfa_from_regex"}),
     V("c10-env-var", [("src/lib.rs", '    let version = env!("COMPLGEN_VERSION");', '    let version = std::env::var("COMPLGEN_VERSION").unwrap_or_default();')], {"C10": "AMBIENT:signature"}),
